@@ -10,7 +10,7 @@ from dataclasses import dataclass, field
 from typing import Callable
 
 from . import VERIF_ROOT, AnalysisError
-from .index import Def, Repo, digest_node
+from .index import Def, Repo, anon, digest_node, scope_locals
 
 KNOWN_FINDINGS_FILE = os.path.join(VERIF_ROOT, "known_findings.json")
 EVIDENCE_DIR = os.path.join(VERIF_ROOT, "evidence")
@@ -77,6 +77,7 @@ class Ctx:
         self.tier = tier
         self.obs: list[Ob] = []
         self.notes: list[str] = []
+        self._loc_cache: dict[str, frozenset] = {}
 
     def ob(
         self,
@@ -101,7 +102,7 @@ class Ctx:
             else:
                 loc = "?"
         kn = key_node if key_node is not None else node
-        dg = digest_node(kn) if kn is not None else "-"
+        dg = digest_node(kn, self.locals_of(where)) if kn is not None else "-"
         key = f"{self.spec.rid}:{construct}:{dg}"
         exc = EXCEPTIONS.get((self.spec.rid, construct))
         p = frozenset(props) if props is not None else frozenset(self.spec.props)
@@ -109,6 +110,19 @@ class Ctx:
             Ob(self.spec.rid, construct, loc, bool(ok) or exc is not None, msg, key, p, nontrivial, exc if not ok else None)
         )
         return bool(ok)
+
+    def locals_of(self, where) -> frozenset:
+        if not isinstance(where, Def):
+            return frozenset()
+        c = self._loc_cache.get(where.qual)
+        if c is None:
+            c = self._loc_cache[where.qual] = scope_locals(where)
+        return c
+
+    def anon(self, where, node, limit: int = 80) -> str:
+        """text of `node` with the local names of `where` erased — for selectors that must
+        survive a rename of local variables"""
+        return anon(node, self.locals_of(where), limit)
 
     def note(self, s: str) -> None:
         self.notes.append(s)
